@@ -50,7 +50,7 @@ PROPS = {
               rule='a case is a boundary instance: timestamps are multiples of a unit U in {2^30, 2^31-1, 2^31, 2^32-1, 2^32} so that small multiples land just below / on / above the 32-bit limits of sample deltas, total durations and composition offsets; dimension / parameter-set / rate boundaries come from the layout and init-segment corpora; non-trivial when some derived quantity is within one step of a field boundary',
               assumptions=['box sizes / chunk offsets around 4 GiB are out of reach of any execution in this sandbox and are not covered', 'values are compared through quotient/remainder w.r.t. the unit because TLC integers are 32-bit']),
     'C12': _p(lambda t: ['extreme', 'extremefrag', 'mutbytes', 'mutframes', 'contract', 'reject', 'finish', 'conv', 'av', 'frag', 'fraginit', 'fn14', 'fncfg', 'fnobu',
-                         'meta', 'layout', 'codeccfg', 'adts', 'bound', 'boundfrag', 'sink', 'valtab'], level='exploration',
+                         'meta', 'layout', 'codeccfg', 'adts', 'bound', 'boundfrag', 'sink', 'valtab', 'dates'], level='exploration',
               rule='a case is a (public item, input) pair: argument extremes and arbitrary f64 bit patterns for every entry point, every prefix and single-bit flip of generated bitstream headers, the exhaustive small-scope byte strings, all contract probes, and every execution of every other corpus (a panic or hang anywhere is a C12 signature); non-trivial when the input is not the valid baseline',
               assumptions=['small-scope exhaustion plus grammar-directed mutation, not a proof over all byte strings', 'the harness is built with overflow checks and debug assertions; a panic is caught with catch_unwind, a call that does not return within the watchdog limit is reported as a hang']),
 
@@ -59,7 +59,7 @@ PROPS = {
               assumptions=['determinism is observed, not proved: bounded behaviours x the listed modes', 'the clause Muxer<W>: Send for all W: Send (+ Sync) is decided by rustc on harness/src/bin/sendwitness.rs, not by TLC']),
               pre=send_witness),
 
-    'C18': _p(lambda t: ['meta', 'layout'],
+    'C18': _p(lambda t: ['meta', 'layout', 'dates'],
               rule='a case is a metadata value (title bytes / Unix day + second of day / language code / presence combination) on a muxer run, each also compared with the metadata-free run of the same history; non-trivial when it differs from the empty metadata',
               assumptions=['dates are judged for 1970-01-01 .. 9999-12-31; larger creation times only for termination (C12)', 'the closed-form Civil() of Meta.tla is itself checked by TLC against the counting definition (MCMeta)', 'malformed language codes are not judged (only absence of panics)']),
 
